@@ -241,7 +241,9 @@ func runC15(c *core.Ctx, o Options) {
 	}
 	c.Check(nU6 >= 3, "U6", "", "state-changing handlers and goroutines found", 0, fmt.Sprint(nU6), "fewer state-changing roots than confirmed by reading")
 	checkEventPool(c, "U5")
-	c.RuleMin = map[string]int{"M1": 3, "U1": 1, "U2": 1, "U3": 1, "U4": 4, "U5": 3, "U6": 5}
+	// U3 premise: the close timeout armed by Stop is the configured one — the settings the Logon handler installs keep CloseTimeout
+	s.checkSettingsPreserved("U3")
+	c.RuleMin = map[string]int{"M1": 3, "U1": 1, "U2": 1, "U3": 3, "U4": 4, "U5": 3, "U6": 5}
 	c.MinObl = 12
 }
 
